@@ -5,11 +5,11 @@ set_option maxHeartbeats 1000000
 /-! Tie theorems (remove / make_contiguous) — see `CircBuf/Lemmas/CoreTie.lean` for what they are. -/
 namespace CircBuf
 
-theorem tie_remove (i : Nat) (s : Sys) (h : Inv s.buf)
+maybe theorem tie_remove (i : Nat) (s : Sys) (h : Inv s.buf)
     (hnd : NonDefect (remove i s).1) :
     Gen.remove i s = remove i s := by
   tie3 h hnd [Gen.remove, remove]
-theorem tie_make_contiguous (s : Sys) (h : Inv s.buf)
+maybe theorem tie_make_contiguous (s : Sys) (h : Inv s.buf)
     (hnd : NonDefect (makeContiguous s).1) :
     Gen.make_contiguous s = makeContiguous s := by
   tie3 h hnd [Gen.make_contiguous, makeContiguous]
